@@ -114,6 +114,7 @@ def cmpFlat (a b : Obj) : Outcome Int :=
   | float x, float y => .ok (F64.compare x y)
   | bool x, bool y => .ok (if x == y then 0 else if x then 1 else -1)
   | str x, str y => .ok (cmpBytes x y)
+  | quote x, quote y => .ok (cmpBytes x y)       -- fix: quotes are ordered by their printed form
   | a, _ => .panic ("Unexpected type in Cmp: " ++ typeName a.typ)
 
 /-- `Cmp` after `Value()` on both operands, except ARRAY/ARRAY and MAP/MAP: the int/float case,
@@ -121,8 +122,8 @@ the order by type, and the flat same-type cases -/
 def cmpTop (a b : Obj) : Outcome Int :=
   if areIntFloat a.typ b.typ then
     match a, b with
-    | int i, float f => .ok (cmpIntFloatLegacy i f)
-    | float f, int i => .ok (-(cmpIntFloatLegacy i f))
+    | int i, float f => .ok (cmpIntFloat i f)
+    | float f, int i => .ok (-(cmpIntFloat i f))
     | _, _ => .panic "interface conversion"
   else if a.typ < b.typ then .ok (-1)
   else if b.typ < a.typ then .ok 1
